@@ -94,6 +94,8 @@ pub struct PacketSource {
     pub samples: Vec<i32>,
     pub pos: usize,
     pub reads: usize,
+    /// issue an empty fill before the fill that delivers the samples (a no-op for `FrameBuf`/`Context`)
+    pub empty_first: bool,
 }
 
 impl Source for PacketSource {
@@ -116,6 +118,9 @@ impl Source for PacketSource {
         };
         self.reads += 1;
         let end = (self.pos + want * self.ch).min(self.samples.len());
+        if self.empty_first {
+            dest.fill_interleaved(&[])?;
+        }
         dest.fill_interleaved(&self.samples[self.pos..end])?;
         let n = (end - self.pos) / self.ch;
         self.pos = end;
